@@ -104,7 +104,57 @@ Theorem C20_model_writes_never_raise :
 Proof. exact model_writes_never_raise. Qed.
 Print Assumptions C20_model_writes_never_raise.
 
+(* ---- removing one instance of a series removes exactly that occurrence ----
+   The series may have been written by another client: daily or weekly, unbounded or bounded by UNTIL
+   (inclusive, as an instant or a date) or COUNT, the bound anywhere in the line.  Hypotheses: the
+   RRULE line carries at most one EXDATE part (the adapter itself never writes a second one; with two,
+   the exclusions of the second are lost by the rewrite: GcsaP.two_exdate_parts_refuted) and does not
+   begin with it. *)
+(* (1) the rewritten line: the other parts (UNTIL, COUNT, ...) are kept in order, and the series it
+   stands for is the old one minus the occurrence starting at the excluded instant, in every window *)
+Theorem C20_instance_removal_exact :
+  forall (b : bstate) (st : sev) (r : srec) (x : exd) (lo hi : option Z),
+    single_ex (r_line r) = true -> is_ex (hd TRule (r_line r)) = false ->
+    rule_toks (add_exdate (r_line r) x) = rule_toks (r_line r) /\
+    instances b st (with_line r (add_exdate (r_line r) x)) lo hi =
+    filter (fun w => negb (w_s w =? parse_exd x)) (instances b st r lo hi).
+Proof.
+  intros. split; [apply add_exdate_rule_toks | apply instance_removal_exact; assumption].
+Qed.
+Print Assumptions C20_instance_removal_exact.
+
+(* (2) Calendar.remove(instance) reporting success, against the simulated backend: afterwards the
+   master's series is the old one minus exactly the occurrence that starts where the instance starts
+   (also the last occurrence of a series whose UNTIL is that very instant, and also when the
+   occurrence was excluded already and nothing is written) *)
+Theorem C20_remove_instance_exact :
+  forall (a a' : astate) (ev : aev) (m : N) (st : sev) (r : srec),
+    find_ev m (bs_store (a_b a)) = Some st -> s_rec st = Some r ->
+    single_ex (r_line r) = true -> is_ex (hd TRule (r_line r)) = false ->
+    remove_instance a ev m = (a', [(true, None)]) ->
+    exists st' r',
+      find_ev m (bs_store (a_b a')) = Some st' /\ s_rec st' = Some r' /\
+      rule_toks (r_line r') = rule_toks (r_line r) /\
+      forall lo hi, map row_obs (instances (a_b a') st' r' lo hi) =
+                    map row_obs (filter (fun w => negb (w_s w =? e_s ev)) (instances (a_b a) st r lo hi)).
+Proof. exact remove_instance_exact. Qed.
+Print Assumptions C20_remove_instance_exact.
+
 (* ---- satisfiability of the hypotheses ---- *)
+(* a weekly series ending with UNTIL = the start of its fourth occurrence: that occurrence is removed *)
+Example C20_until_last_occurrence_removed :
+  let mon := 1736157600 in
+  let r := mkR true 1 [] [TRule; TUntil (2025, 1, 27, 10, 0, 0)] [] in
+  let st := mkSev (Some 1%N) (Some 1%N) None (Some utc_zone) [] false false mon (Some (mon + HOUR)) KZone (Some r) in
+  let a := init utc_zone [st] 2%N [] in
+  let last := mon + 21 * DAY in
+  let ev := mkE (EInst 1%N last) 1%N None (Some 1%N) false None last (last + HOUR) in
+  let res := remove_instance a ev 1%N in
+  map w_s (rows_of (a_b a) None (Some (mon + 60 * DAY))) = [mon; mon + 7 * DAY; mon + 14 * DAY; last] /\
+  snd res = [(true, None)] /\ bs_calls (a_b (fst res)) = 2%nat /\
+  map w_s (rows_of (a_b (fst res)) None (Some (mon + 60 * DAY))) = [mon; mon + 7 * DAY; mon + 14 * DAY] /\
+  single_ex (r_line r) = true /\ is_ex (hd TRule (r_line r)) = false.
+Proof. exact until_last_occurrence_removed. Qed.
 (* three events, one across the page edge at 30, one empty exactly on it: page size 30 over [0, 70) *)
 Example C20_pager_example :
   let evs := [(5, 8); (29, 31); (30, 30); (40, 41)] in
